@@ -380,7 +380,7 @@ func parseGen(a args) {
 					c.Asks = append(c.Asks, askT{N: nt, P: b + p})
 				}
 			}
-			out := runCase(c, runOpts{budget: budget, api: true, trees: a.num("trees", 0) == 1})
+			out := runCase(c, runOpts{budget: budget, api: true, trees: a.num("trees", 0) == 1, watch: a.num("watch", 0) == 1})
 			if out.over {
 				skipped++
 				continue
@@ -391,6 +391,9 @@ func parseGen(a args) {
 			}
 			if out.api != nil && !out.bound {
 				trace.put(out.api)
+			}
+			for _, m := range out.mutations {
+				trace.put(J{"ev": "mutation", "n": m["n"], "pos": m["pos"], "at_return": m["at_return"], "now": m["now"]})
 			}
 			events += len(out.events)
 			written++
